@@ -607,7 +607,7 @@ class C07(WorkerProp):
 
     def chunk_of(self, line):
         t = line.split(" ")
-        return (1 + sum(bytes.fromhex(t[1])) % 7) if t[0] == "errstop" else 0
+        return (1 + sum(bytes.fromhex(t[1])) % 7) if t[0] in ("errstop", "wrqsilent") else 0
 
     def generate(self, tier, rng):
         n = self.n_quick if tier == "quick" else self.n_thorough
@@ -622,9 +622,20 @@ class C07(WorkerProp):
                 root = (self.sandbox + "/k%d" % (k % 7)).encode().hex()
                 k += 1
                 L.append("errstop %s %s srv/f=gen:40:3 %s %d" % (root, flags, rq("rrq", b"f", (("timeout", 1), ("blksize", 8), ("windowsize", 2))).hex(), code))
+        # through the server, in real time: an upload whose client falls silent is given up after MAX_RETRIES acknowledged time-outs (the
+        # partial file disappears then, not earlier and not never), in both port modes
+        for flags in ["-", "s"]:
+            root = (self.sandbox + "/k%d" % (k % 7)).encode().hex()
+            k += 1
+            L.append("wrqsilent %s %s srv/f=gen:40:3 %s %d" % (root, flags, rq("wrq", b"up", (("timeout", 1), ("blksize", 8))).hex(), rng.choice([0, 1, 3])))
         return L
 
     def oracle(self, line, impl):
+        if line.startswith("wrqsilent "):
+            want = "first=ok gone_after=%d" % MAX_RETRIES       # timeout=1 in these cases
+            if impl != want:
+                return ("an upload whose client fell silent: %s (expected the partial file to be removed after %d time-outs of 1 s)" % (impl, MAX_RETRIES), "silent-upload-not-given-up")
+            return None
         if line.startswith("errstop "):
             if impl != "first=data after=0":
                 return ("after the client's ERROR %s the server still sent datagrams (%s)" % (line.split(" ")[5], impl), "server-goes-on-after-error")
@@ -632,16 +643,16 @@ class C07(WorkerProp):
         return WorkerProp.oracle(self, line, impl)
 
     def nontrivial(self, line, impl):
-        return line.startswith("errstop ") or WorkerProp.nontrivial(self, line, impl)
+        return line.startswith(("errstop ", "wrqsilent ")) or WorkerProp.nontrivial(self, line, impl)
 
     def classify(self, line, impl, res):
-        if line.startswith("errstop "):
-            res.count("server-level-abort:flags=%s" % line.split(" ")[2])
+        if line.startswith(("errstop ", "wrqsilent ")):
+            res.count("server-level-%s:flags=%s" % (line.split(" ")[0], line.split(" ")[2]))
         else:
             WorkerProp.classify(self, line, impl, res)
 
     def shrink(self, line):
-        return [] if line.startswith("errstop ") else WorkerProp.shrink(self, line)
+        return [] if line.startswith(("errstop ", "wrqsilent ")) else WorkerProp.shrink(self, line)
 
 
 class C08(WorkerProp):
@@ -1142,6 +1153,15 @@ class C13(WorkerProp):
             for clean in (0, 1):
                 for flen in (0, 5, 8, 20, 1500):
                     L.append("dupwrq %d %d %d gen:%d:%d" % (b, w, clean, flen, b + w))
+        # write errors: the target is a link to /dev/full (creatable, every non-empty write fails with ENOSPC)
+        for w in (1, 2, 4):
+            for clean in (0, 1):
+                L.append("rcv 8 %d 1 %d nospace D1:0102030405060708 D2:0102030405060708 D3:0102030405060708 D4:0102030405060708 D5:01" % (w, clean))
+                L.append("rcv 8 %d 1 %d nospace D1:010203" % (w, clean))
+                L.append("rcv 8 %d 1 %d nospace D1:-" % (w, clean))
+                L.append("rcv 8 %d 1 %d nospace D1:0102030405060708 D1:0102030405060708 D3:01 T D2:01" % (w, clean))
+                L.append("rcv 8 %d 1 %d nospace E" % (w, clean))
+                L.append("rcv 512 %d 1 %d nospace D1:gen:512:1 D2:gen:512:2 D3:gen:100:3" % (w, clean))
         # through the server: --keep-on-error must reach the worker, in both port modes, with and without options
         from .p_server import rq
         root = (self.sandbox + "/k0").encode().hex()
@@ -1183,7 +1203,33 @@ class C13(WorkerProp):
                 return ("a stale earlier transfer of the same name removed or altered the completed upload when it timed out "
                         "(left: %s)" % kv.get("after-stale-timeout"), "dup-wrq-stale-timeout-removes-completed")
             return None
+        if line.startswith("rcv ") and line.split(" ")[5] == "nospace":
+            return self.nospace_oracle(line, impl)
         return WorkerProp.oracle(self, line, impl)
+
+    def nospace_oracle(self, line, impl):
+        """the target cannot take a single byte: an upload that carries data fails with a write error, and a failed upload is removed
+        under clean-on-error / kept under keep-on-error; only the empty upload succeeds."""
+        if impl in ("panic", "abort", "bad-op") or " => " not in impl or "panic" in impl:
+            return ("worker panics or no observation: " + impl[:60], "panic")
+        st, fin = impl.rsplit(" => ", 1)[1].split(" file=")
+        c = RCase(line)
+        k, data = 0, b""
+        for kind, n, payload in c.events:
+            if kind == "data" and n == (k + 1) % 65536:
+                k += 1
+                data += payload
+        if st == "ok" and data:
+            return ("upload reported complete although not one of its %d bytes could be written" % len(data), "write-error-swallowed")
+        if st == "running":
+            return None
+        if st == "failed":
+            if c.clean and fin != "none":
+                return ("upload failed with a write error (no space) and its partial file is left behind although clean-on-error is in force",
+                        "write-error-not-cleaned")
+            if not c.clean and fin == "none":
+                return ("upload failed with a write error and its file was removed although keep-on-error", "write-error-removed")
+        return None
 
     def abort_oracle(self, line, impl):
         from .p_server import Case, parse_rq, recognised, parse_req_obs, lst, enc
